@@ -1432,4 +1432,261 @@ class C11(HistProp):
         return hash(case.line) if any("X=OK" in str(s.expect_out) for s in case.meta["steps"]) else None
 
 
-REGISTRY = {"C08": C08, "C09": C09, "C10": C10, "C11": C11, "C01": C01, "C18": C18, "C12": C12, "C03": C03, "C04": C04, "C05": C05, "C13": C13, "C14": C14}
+def plain_messages(rng, n, tier):
+    """Pointer-free accepted packets built to stress the suffix dictionary."""
+    out = []
+    A = lambda nm, k=1: G.RR(nm, 1, 1, 60, ("raw", bytes([10, 0, k & 255, (k >> 8) & 255])))
+    q = [b"example", b"com"]
+    # random messages, pointer-free
+    for _ in range(n):
+        m = G.rand_msg(rng, max_rr=rng.choice([2, 4, 8]))
+        b, _ = G.encode(rng, m, "none")
+        out.append(("random", b))
+    # repeated and nested suffixes, depth d
+    for d in (2, 5, 10, 15, 16, 17, 20, 30):
+        recs = []
+        name = list(q)
+        for k in range(d):
+            name = [b"l%d" % k] + name
+            recs.append(A(list(name), k))
+        b, _ = G.encode(rng, G.Msg(1, 0x8180, q, 1, 1, an=recs), "none")
+        out.append(("nested-%d" % d, b))
+    # more than 32 distinct suffixes
+    for cnt in (31, 32, 33, 40, 70):
+        recs = [A([b"h%d" % k, b"zone%d" % k, b"org"], k) for k in range(cnt)] + [A([b"again", b"zone0", b"org"], 999), A(q, 5)]
+        b, _ = G.encode(rng, G.Msg(1, 0x8180, q, 1, 1, an=recs), "none")
+        out.append(("many-suffixes-%d" % cnt, b))
+    # suffixes around 127 bytes
+    for ln in (120, 126, 127, 128, 129, 200):
+        nm = G.name_of_wire_len(ln)
+        recs = [A(nm, 1), A([b"www"] + nm if G.wire_len([b"www"] + nm) <= 255 else nm, 2), A(nm, 3)]
+        b, _ = G.encode(rng, G.Msg(1, 0x8180, q, 1, 1, an=recs), "none")
+        out.append(("suffix-len-%d" % ln, b))
+    # mixed-case duplicates, every name-bearing type, OPT anywhere
+    for pos in range(4):
+        ar = [A([b"ns"] + q, 1), A([b"NS", b"Example", b"COM"], 2), A([b"mail", b"EXAMPLE", b"com"], 3)]
+        ar.insert(pos, G.RR([], 41, 1232, 0x8000, ("opt", [(10, b"cookie12")])))
+        an = [G.RR(q, 15, 1, 5, ("mx", 10, [b"mail"] + q)), G.RR([b"WWW"] + q, 5, 1, 5, ("name", [b"web", b"Example", b"Com"])),
+              G.RR(q, 6, 1, 5, ("soa", [b"ns"] + q, [b"admin"] + q, bytes(range(20)))), G.RR([b"ptr"] + q, 12, 1, 5, ("name", q)),
+              G.RR([b"d"] + q, 39, 1, 5, ("dname", [b"target", b"net"]))]
+        ns_ = [G.RR(q, 2, 1, 5, ("name", [b"ns"] + q))]
+        b, _ = G.encode(rng, G.Msg(1, 0x8580, [b"Example", b"COM"], 255, 1, an=an, ns=ns_, ar=ar), "none")
+        out.append(("types-opt%d" % pos, b))
+    # names beyond offset 16383 (thorough only: the model is quadratic in the packet size)
+    if tier == "thorough":
+        big = [G.RR(q, 16, 1, 5, ("raw", bytes([255]) + bytes(rng.randint(97, 122) for _ in range(255)))) for _ in range(62)]
+        recs = big + [A([b"far", b"away", b"org"], 1), A([b"x", b"far", b"away", b"org"], 2), A(q, 3)]
+        b, _ = G.encode(rng, G.Msg(1, 0x8180, q, 1, 1, an=recs), "none")
+        out.append(("beyond-16383", b))
+    return [(f, b) for (f, b) in out if decode_or_none(b) is not None]
+
+
+def max_hops(m):
+    h = m.q_hops
+    for recs in m.sections:
+        for r in recs:
+            h = max(h, r.hops)
+    return h
+
+
+class C06(Prop):
+    id = "C06"
+    rule = ("CU: Compress::compress then Compress::uncompress of the result, on accepted pointer-free packets: random messages; nested "
+            "suffixes of depth 2..30; 31..70 distinct suffixes (table wrap, pinned first entry); suffixes of 120..200 bytes; mixed-case "
+            "duplicates; NS/CNAME/PTR/MX/SOA/DNAME data; OPT in every position; names beyond offset 16383 (thorough). Oracle: output accepted, "
+            "not longer than the input, same header / record sequence / contents with names equal up to ASCII case and the question name "
+            "byte-identical, decompression gives back the input up to name case. Non-trivial: output shorter than input; distinct = "
+            "distinct packet.")
+    strength = ("PARTIAL: proved: the case-insensitive raw-name comparison of the suffix dictionary is reflexive on well-formed names and "
+                "compression output starts with the input's header (C06_header_kept). The packet-level statement (C06_full_statement) is "
+                "decided each run by the correspondence and the reference-decoder oracle. Known finding: pointer chains deeper than 16 hops.")
+    assumptions = ["bytes < 256", "input is pointer-free (documented precondition: compress panics on an already compressed name)"]
+
+    def gen(self, rng, tier):
+        n = 300 if tier == "quick" else 6000
+        return [Case("c%d" % i, "CU," + hx(b), {"family": fam, "pkt": b.hex()}) for i, (fam, b) in enumerate(plain_messages(rng, n, tier))]
+
+    def oracle(self, case, io):
+        w = no_crash(io)
+        if w:
+            return "[crash] " + w
+        b = bytes.fromhex(case.meta["pkt"])
+        m = decode_or_none(b)
+        if m is None:
+            return None
+        o = io[0]
+        if not o.startswith("OK:"):
+            return "[failed] compression of an accepted pointer-free packet failed: " + o
+        c_hex, u_hex = o[3:].split("|")
+        c = bytes.fromhex(c_hex)
+        mc = decode_or_none(c)
+        if mc is None:
+            # is it the known chain-depth class?
+            try:
+                G.decode_ref(c)
+            except G.Reject as e:
+                if "more than 16 pointers" in str(e):
+                    return "[chain-depth] compressed packet needs more than 16 pointer hops for some name and is rejected by the parser"
+            except IndexError:
+                pass
+            return "[not-accepted] compressed packet is not accepted by the parser"
+        if len(c) > len(b):
+            return "[grew] compressed packet is longer than its input (%d > %d)" % (len(c), len(b))
+        if G.message_key(mc, ci=True) != G.message_key(m, ci=True):
+            return "[changed] compression changed the message (beyond the case of names)"
+        if list(mc.qname) != list(m.qname):
+            return "[question-case] the question name is not byte-identical after compression"
+        if u_hex.startswith("ERR"):
+            return "[roundtrip] decompressing the compressed packet failed: " + u_hex
+        mu = decode_or_none(bytes.fromhex(u_hex))
+        if mu is None or G.message_key(mu, ci=True) != G.message_key(m, ci=True) or len(bytes.fromhex(u_hex)) != len(b):
+            return "[roundtrip] decompressing the compressed packet does not give back the input (up to name case)"
+        return None
+
+    def classify(self, case, why):
+        return why[1:why.index("]")] if why.startswith("[") else "compress"
+
+    def nontrivial(self, case, io):
+        if io and io[0].startswith("OK:"):
+            c = io[0][3:].split("|")[0]
+            return hash(case.line) if len(c) < len(case.meta["pkt"]) else None
+        return None
+
+    def tags(self, case, io):
+        return [io[0][:3]] if io else ["noout"]
+
+
+class C07(Prop):
+    id = "C07"
+    rule = ("R: Renamer::rename_with_raw_names on accepted packets (all pointer layouts, OPT anywhere, every name-bearing type) x (target, "
+            "source, exact|suffix) with well-formed non-root names: sources taken from the packet's own names at every label depth, case "
+            "variants, partial-label near misses, non-matching names, identity (target = source), targets that push a name past 255 bytes; "
+            "RR: replace_raw on single names. Oracle: abstract rename on the decoded message (gen/hist.py apply_rename). Non-trivial: the "
+            "source matches at least one name; distinct = distinct (packet, names, mode).")
+    strength = ("PARTIAL: proved: replace_raw never panics on well-formed plain names and returns either no-match, an error, or the name with its "
+                "matching label-aligned suffix replaced by the target (C07_replace_raw_shape). The packet-level statement "
+                "(C07_full_statement) is decided each run by the correspondence and the abstract-rename oracle. Known finding: pointer chains "
+                "deeper than 16 hops (shared with C06).")
+    assumptions = ["bytes < 256", "source and target are well-formed pointer-free non-root names (property precondition)"]
+
+    def gen(self, rng, tier):
+        n = 400 if tier == "quick" else 8000
+        cases = []
+        pk = special_valid(rng) + valid_packets(rng, n)
+        for fam, b in plain_messages(rng, 20, "quick"):
+            m = decode_or_none(b)
+            if m is not None:
+                pk.append((b, m))
+        k = 0
+        for (b, m) in pk:
+            a = H.amsg_of(m)
+            names = [a.q[0]]
+            for s in a.secs:
+                for r in s:
+                    if r.t == G.T_OPT:
+                        continue
+                    names.append(r.name)
+                    if r.rd[0] == "name":
+                        names.append(r.rd[1])
+                    elif r.rd[0] == "mx":
+                        names.append(r.rd[2])
+                    elif r.rd[0] == "soa":
+                        names += [r.rd[1], r.rd[2]]
+            names = [nm for nm in names if len(nm) > 0]
+            for rep in range(3):
+                sfx = rng.random() < 0.6
+                r = rng.random()
+                if names and r < 0.7:
+                    nm = rng.choice(names)
+                    src = list(nm[rng.randrange(len(nm)):]) if sfx else list(nm)
+                    if rng.random() < 0.3:
+                        src = [bytes(l).swapcase() for l in src]
+                    if rng.random() < 0.15 and len(src[0]) > 1:
+                        src = [src[0][1:]] + src[1:]  # partial-label near miss
+                else:
+                    src = [b"no", b"match"]
+                r2 = rng.random()
+                if r2 < 0.15:
+                    tgt = list(src)  # identity
+                elif r2 < 0.3:
+                    tgt = G.name_of_wire_len(rng.choice([200, 240, 250, 255]))
+                else:
+                    tgt = [b"new%d" % rep, rng.choice([b"Target", b"net", b"t" * 40])]
+                if not all(G._label_ok(l) and len(l) > 0 for l in src + tgt):
+                    continue
+                cases.append(Case("r%d" % k, "R,%s,%s,%s,%d" % (hx(b), hx(G.wire_name(tgt)), hx(G.wire_name(src)), 1 if sfx else 0),
+                                  {"family": "rename", "pkt": b.hex(), "tgt": [x.hex() for x in tgt], "src": [x.hex() for x in src], "sfx": sfx}))
+                k += 1
+        # replace_raw on single names
+        for i in range(300 if tier == "quick" else 5000):
+            nm = G.rand_name(rng, None, 5)
+            nm = [l for l in nm if G._label_ok(l)]
+            if not nm:
+                continue
+            sfx = rng.random() < 0.5
+            src = list(nm[rng.randrange(len(nm)):]) if rng.random() < 0.7 else [b"zz"]
+            tgt = [b"t", b"example"] if rng.random() < 0.8 else G.name_of_wire_len(250)
+            cases.append(Case("rr%d" % i, "RR,%s,%s,%s,%d" % (hx(G.wire_name(nm)), hx(G.wire_name(tgt)), hx(G.wire_name(src)), 1 if sfx else 0),
+                              {"family": "replace_raw", "nm": [x.hex() for x in nm], "tgt": [x.hex() for x in tgt], "src": [x.hex() for x in src], "sfx": sfx}))
+        return cases
+
+    def oracle(self, case, io):
+        w = no_crash(io)
+        if w:
+            return "[crash] " + w
+        tgt = [bytes.fromhex(x) for x in case.meta["tgt"]]
+        src = [bytes.fromhex(x) for x in case.meta["src"]]
+        sfx = case.meta["sfx"]
+        o = io[0]
+        if case.meta["family"] == "replace_raw":
+            nm = [bytes.fromhex(x) for x in case.meta["nm"]]
+            new, over = H.replace_name(nm, tgt, src, sfx)
+            changed = [bytes(x).lower() for x in new] != [bytes(x).lower() for x in nm] or (tgt == src and H.replace_name(nm, [b"\1"], src, sfx)[0] != nm)
+            matched = H.replace_name(nm, [b"@@"], src, sfx)[0] != nm
+            if not matched:
+                exp = "OK:none"
+            elif over:
+                exp = "ERR"
+            else:
+                exp = "OK:" + hx(G.wire_name(new))
+            if (exp == "ERR" and not o.startswith("ERR")) or (exp != "ERR" and o.lower() != exp.lower()):
+                return "[replace_raw] got %s, expected %s" % (o[:120], exp[:120])
+            return None
+        b = bytes.fromhex(case.meta["pkt"])
+        m = decode_or_none(b)
+        if m is None:
+            return None
+        a = H.amsg_of(m)
+        exp = H.apply_rename(a, tgt, src, sfx)
+        if exp is None:
+            if not o.startswith("ERR"):
+                return "[overflow-accepted] a rewritten name exceeds 255 bytes but renaming returned a packet"
+            return None
+        if not o.startswith("OK:"):
+            return "[failed] renaming failed (%s) although no rewritten name exceeds 255 bytes" % o
+        r = bytes.fromhex(o[3:])
+        mr = decode_or_none(r)
+        if mr is None:
+            try:
+                G.decode_ref(r)
+            except G.Reject as e:
+                if "more than 16 pointers" in str(e):
+                    return "[chain-depth] renamed packet needs more than 16 pointer hops for some name and is rejected by the parser"
+            except IndexError:
+                pass
+            return "[not-accepted] renamed packet is not accepted by the parser"
+        if H.amsg_of(mr).key(ci=True) != exp.key(ci=True):
+            return "[effect] renamed packet does not decode to the abstractly renamed message"
+        return None
+
+    def classify(self, case, why):
+        return why[1:why.index("]")] if why.startswith("[") else "rename"
+
+    def nontrivial(self, case, io):
+        return hash(case.line)
+
+    def tags(self, case, io):
+        return [io[0][:3]] if io else ["noout"]
+
+
+REGISTRY = {"C06": C06, "C07": C07, "C08": C08, "C09": C09, "C10": C10, "C11": C11, "C01": C01, "C18": C18, "C12": C12, "C03": C03, "C04": C04, "C05": C05, "C13": C13, "C14": C14}
